@@ -35,6 +35,12 @@ func statCaseWrap(rnd *rand.Rand, key *ecdsa.PrivateKey, out *bufio.Writer) {
 	statCaseN(rnd, key, out, 3+rnd.Intn(3), time.Millisecond)
 }
 
+// statCaseLong runs one measurement that lasts longer than the 32-bit nanosecond clock takes to go round (4.29 s): a slow
+// client, or many rounds over a long link.
+func statCaseLong(rnd *rand.Rand, key *ecdsa.PrivateKey, out *bufio.Writer) {
+	statCaseN(rnd, key, out, 3+rnd.Intn(2), 1500*time.Millisecond)
+}
+
 func statCase(rnd *rand.Rand, key *ecdsa.PrivateKey, out *bufio.Writer) {
 	statCaseN(rnd, key, out, 3+rnd.Intn(48), 0)
 }
